@@ -299,6 +299,15 @@ theorem tzical_load_get (lib : RRuleLib) (isPath : Bool) (text : List Char) :
   have := get_after_parse lib text st h
   exact ⟨this.1, this.2.1, this.2.2.2⟩
 
+/-- `tzrange._dst_base_offset` (the attribute set by `__init__`, read back by the property) is `dst − std`, the saving the
+    `tzrangebase` lookups use (`TZ.RangeZone.saving`), for offsets within a day of UTC -/
+theorem tzrange_dst_base_offset_spec (d s : Int) (hd : -86400 < d ∧ d < 86400) (hs : -86400 < s ∧ s < 86400) :
+    (Gen.tzrange_initDstBaseOffset (d * DtPy.M) (s * DtPy.M)).bind Gen.tzrange_dstBaseOffsetProp = .ok ((d - s) * DtPy.M) := by
+  unfold Gen.tzrange_initDstBaseOffset RfcPy.tdSub RfcPy.tdRange TzStr.tdLimit DtPy.M
+  rw [if_neg (by omega)]
+  simp only [Except.bind, Gen.tzrange_dstBaseOffsetProp]
+  congr 1; omega
+
 /-! non-vacuity -/
 example : (Gen.tzical_parseRfc okLib (goodText ++ goodText)).map (fun st => st.vtz.length) = .ok 1 := by decide +kernel
 example : Gen.tzical_get [⟨lit "A", []⟩, ⟨lit "B", []⟩] (some (lit "B")) = .ok (some ⟨lit "B", []⟩) := by decide
